@@ -23,7 +23,7 @@ class OnionWorld:
         from ipv8.peer import Peer
         from .nodes import Node
         random.seed(seed)
-        self.rng = random.Random(seed)
+        self.rng = random.Random((seed + 1) * 7919 + 13)     # must not replay the global generator the nodes draw circuit ids from
         self.loop = vloop.install(vloop.StepLoop(start=1000.0))
         self.t0 = self.loop.time()
         self.net = attach(self.loop, SimNet(self.loop, auto=False))
@@ -415,6 +415,7 @@ class OnionWorld:
                 c[23 + self.rng.randrange(4)] ^= 1 << self.rng.randrange(8)
                 if struct.unpack_from("!I", c, 23)[0] not in self.cid_map:
                     b = c
+                    self.cid(struct.unpack_from("!I", c, 23)[0])    # an id nobody used so far: allocated like any other
                     break
         elif what == "plain":
             b[27] = 0 if b[27] else 1
@@ -449,6 +450,7 @@ class OnionWorld:
             new = struct.unpack_from("!I", b, 23)[0]
             if new in self.cid_map:
                 return self.log("Splice", id=seq, cid=self.cid_map[new], pos=pos)
+            self.cid(new)
             return self.log("TamperHeader", id=seq, what="cid", pos=pos)
         what = "plain" if pos == 27 else "early"
         if (old[pos] != 0) == (b[pos] != 0):
